@@ -141,6 +141,38 @@ fn run_constants(_: &Unit, obs: &mut Obs) -> CheckResult {
     }
     ensure!(*Ipv4Blocks::all() == IpBlocks::all() && *Ipv6Blocks::all() == IpBlocks::all(), "typed all()");
     ensure!(Ipv4Blocks::empty().is_empty() && Ipv6Blocks::empty().is_empty(), "typed empty()");
+    // builders that were handed nothing denote the empty set ("missing"), however they were
+    // obtained, and never turn into "inherit" by themselves
+    use rpki::repository::resources::{AsBlocksBuilder, AsResourcesBuilder, IpBlocksBuilder, IpResourcesBuilder};
+    for (what, r) in [
+        ("AsResourcesBuilder::new()", AsResourcesBuilder::new().finalize()),
+        ("AsResourcesBuilder::default()", AsResourcesBuilder::default().finalize()),
+        ("AsResourcesBuilder::default() + blocks(|_| ())", { let mut b = AsResourcesBuilder::default(); b.blocks(|_| ()); b.finalize() }),
+        ("AsResources::missing()", AsResources::missing()),
+    ] {
+        ensure_sig!(!r.is_inherited() && !r.is_present(), "c03:empty-builder", "{} is inherited={} present={}, expected the empty set", what, r.is_inherited(), r.is_present());
+        check_as(what, &r.to_blocks().map_err(bad(what))?, &ISet::empty())?;
+    }
+    for (what, r) in [
+        ("IpResourcesBuilder::new()", IpResourcesBuilder::new().finalize()),
+        ("IpResourcesBuilder::default()", IpResourcesBuilder::default().finalize()),
+        ("IpResourcesBuilder::default() + blocks(|_| ())", { let mut b = IpResourcesBuilder::default(); b.blocks(|_| ()); b.finalize() }),
+        ("IpResources::missing()", IpResources::missing()),
+    ] {
+        ensure_sig!(!r.is_inherited() && !r.is_present(), "c03:empty-builder", "{} is inherited={} present={}, expected the empty set", what, r.is_inherited(), r.is_present());
+        check_ip(what, Fam::V4, &r.to_blocks().map_err(bad(what))?, &ISet::empty())?;
+    }
+    {
+        let mut b = AsResourcesBuilder::default();
+        b.inherit();
+        let mut c = IpResourcesBuilder::default();
+        c.inherit();
+        ensure!(b.finalize().is_inherited() && c.finalize().is_inherited() && AsResources::inherit().is_inherited() && IpResources::inherit().is_inherited(), "inherit() builders");
+        ensure!(AsResources::inherit().to_blocks().is_err() && IpResources::inherit().to_blocks().is_err(), "to_blocks() of inherited resources must fail");
+    }
+    check_as("AsBlocksBuilder::default()", &AsBlocksBuilder::default().finalize(), &ISet::empty())?;
+    check_ip("IpBlocksBuilder::default()", Fam::V6, &IpBlocksBuilder::default().finalize(), &ISet::empty())?;
+    check_ip("IpBlocks::default()", Fam::V6, &IpBlocks::default(), &ISet::empty())?;
     // ResourceSet
     let (all, none) = (ResourceSet::all(), ResourceSet::empty());
     ensure!(all.contains(&none) && all.contains(&all) && !none.contains(&all) && none.is_empty() && !all.is_empty(), "ResourceSet::all()/empty()");
